@@ -269,6 +269,17 @@ def inproc_bin():
     return os.path.join(BUILD, "target-inproc", "debug", "dm_inproc")
 
 
+def build_inproc_noassert(timeout=900):
+    """the harness built with the `noassert` profile (debug assertions and overflow checks off, as in a release build)"""
+    build_inproc()
+    p = subprocess.run(["cargo", "build", "--offline", "-q", "--profile", "noassert"], cwd=INPROC_DIR,
+                       env=cargo_env({"CARGO_TARGET_DIR": os.path.join(BUILD, "target-inproc")}),
+                       stdout=subprocess.PIPE, stderr=subprocess.STDOUT, text=True, timeout=timeout)
+    if p.returncode != 0:
+        raise ToolError("inproc harness (profile noassert) build failed:\n" + p.stdout[-4000:])
+    return os.path.join(BUILD, "target-inproc", "noassert", "dm_inproc")
+
+
 def run_inproc(cmd, cases, deadline_ms=10000, timeout=3600, _confirm=True):
     """Feed cases (dicts with 'key') to the harness; returns dict key -> observation.
     A hard crash of the harness process (stack overflow) is attributed to the case that was being
